@@ -4,11 +4,13 @@
 // (kChunkSize 4096: 3 ideal / 12 per slab; 8192: 1 / 6) can be instantiated next to the library's 256-byte class (32 / 128),
 // which is driven through the public API allocSmallBuffer<256> / deallocSmallBuffer<256> / approxBytesAllocatedSmallBuffer<256>.
 //
-// One case per line:   <chunk 256|4096|8192> <budget> ; <prog t0> ; <prog t1> ; ... ; S <schedule ints...>
+// One case per line:   <chunk 256|2048|4096|8192> <budget> ; <prog t0> ; <prog t1> ; ... ; S <schedule ints...>
+//   or  probe <chunk 4..256|2048|4096|8192> <j> <n>   (implementation-only: helper thread allocates j and exits, a second thread allocates n and holds)
+//   or  consts <chunk>                                (the class constants kIdealNumTLBuffers,kBuffersPerMalloc,kMallocBytes of the real code)
 // prog tokens: A alloc   D<k> dealloc the (k mod #live)-th live block (any thread's)   B bytesAllocated   X thread exit
 //   (a program is run on fresh OS threads: X ends the current one -- its thread_local destructors flush the cache -- and the rest
 //    of the program continues on a new OS thread with empty thread-locals; every program ends with an X)
-// Output: steps t:site ... | results t:tag=v ... | blocked | lock L slabs N maxocc M bad K hints n,b,..;n,..; ev a<id> d<id> .. | status S
+// Output: steps t:site ... | results t:tag=v ... | blocked | lock L slabs N maxocc M bad K consts I,P,M hints n,b,..;n,..; ev a<id> d<id> .. | status S
 //   block ids = slab * perMalloc + index, slab = position in backingStore (never raw addresses);
 //   maxocc = maximum number of threads simultaneously between a successful lock acquisition and their store(0), counted by this
 //            harness at its own wrapper around the hook points;  bad = alloc results failing size/alignment/in-slab/ownership checks;
@@ -106,18 +108,18 @@ static std::vector<Op> parseProg(const std::string& s) {
 }
 
 template <size_t kChunk>
-struct Api {
+struct Api {   // library classes (<= 256 bytes) go through the public API (incl. getOrdinal dispatch); the extra classes directly
   using A = dispenso::detail::SmallBufferAllocator<kChunk>;
-  static char* alloc() { return A::alloc(); }
-  static void dealloc(char* p) { A::dealloc(p); }
-  static size_t bytes() { return A::bytesAllocated(); }
-};
-template <>
-struct Api<256> {   // the library's own class, through the public API
-  using A = dispenso::detail::SmallBufferAllocator<256>;
-  static char* alloc() { return dispenso::allocSmallBuffer<256>(); }
-  static void dealloc(char* p) { dispenso::deallocSmallBuffer<256>(p); }
-  static size_t bytes() { return dispenso::approxBytesAllocatedSmallBuffer<256>(); }
+  using Lib = std::integral_constant<bool, (kChunk <= dispenso::kMaxSmallBufferSize)>;
+  static char* alloc(std::true_type) { return dispenso::allocSmallBuffer<(kChunk <= 256 ? kChunk : 256)>(); }
+  static char* alloc(std::false_type) { return A::alloc(); }
+  static void dealloc(char* p, std::true_type) { dispenso::deallocSmallBuffer<(kChunk <= 256 ? kChunk : 256)>(p); }
+  static void dealloc(char* p, std::false_type) { A::dealloc(p); }
+  static size_t bytes(std::true_type) { return dispenso::approxBytesAllocatedSmallBuffer<(kChunk <= 256 ? kChunk : 256)>(); }
+  static size_t bytes(std::false_type) { return A::bytesAllocated(); }
+  static char* alloc() { return alloc(Lib()); }
+  static void dealloc(char* p) { dealloc(p, Lib()); }
+  static size_t bytes() { return bytes(Lib()); }
 };
 
 template <size_t kChunk>
@@ -169,8 +171,9 @@ static void runCase(long budget, const std::vector<std::vector<Op>>& progs, cons
                 }
               }
               long id = blockId<kChunk>(p, &ok);
+              if (p == nullptr) ok = false;
               if (g_liveSet.count(p)) ok = false;   // handed out while still live
-              memset(p, 0xA5, kChunk);             // the block must be writable over its whole size
+              if (ok) memset(p, 0xA5, kChunk);      // the block must be writable over its whole size
               if (!ok) ++g_bad;
               g_live.push_back(p);
               g_liveSet.insert(p);
@@ -207,7 +210,8 @@ static void runCase(long budget, const std::vector<std::vector<Op>>& progs, cons
   S.run();
   auto& g = dispenso::detail::getSmallBufferGlobals<kChunk>();
   std::ostringstream ex;
-  ex << "lock " << g.backingStoreLock.load() << " slabs " << g.backingStore.size() << " maxocc " << g_maxocc << " bad " << g_bad << " hints ";
+  ex << "lock " << g.backingStoreLock.load() << " slabs " << g.backingStore.size() << " maxocc " << g_maxocc << " bad " << g_bad
+     << " consts " << A::kIdealNumTLBuffers << "," << A::kBuffersPerMalloc << "," << A::kMallocBytes << " hints ";
   for (auto& h : g_hints) {
     ex << h.size();
     for (long b : h) ex << "," << b;
@@ -218,6 +222,60 @@ static void runCase(long budget, const std::vector<std::vector<Op>>& progs, cons
   S.print(ex.str());
 }
 
+// implementation-only probe (no scheduler, no model): a helper OS thread allocates j blocks and exits (its partially filled cache is
+// flushed into the central store), then a second thread allocates n blocks and HOLDS them all, draining the central store through
+// several refills, the last of which is short.  Every block must be non-null, chunk-aligned, inside a slab and not live.
+template <size_t kChunk>
+static void probeCase(long j, long n) {
+  using A = typename Api<kChunk>::A;
+  std::set<char*> live;
+  long bad = 0, firstbad = -1, idx = 0;
+  const char* reason = "none";
+  auto check = [&](char* p) {
+    bool ok = true;
+    const char* why = "none";
+    if (p == nullptr) { ok = false; why = "null"; }
+    else {
+      bool inSlab = true;
+      (void)blockId<kChunk>(p, &inSlab);
+      if (!inSlab) { ok = false; why = "misaligned-or-outside-slab"; }
+      else if (live.count(p)) { ok = false; why = "handed-out-while-live"; }
+    }
+    if (ok) { memset(p, 0xA5, kChunk); live.insert(p); }
+    else { ++bad; if (firstbad < 0) { firstbad = idx; reason = why; } }
+    ++idx;
+  };
+  std::thread helper([&]() { for (long k = 0; k < j; ++k) check(Api<kChunk>::alloc()); });
+  helper.join();
+  std::thread mainT([&]() { for (long k = 0; k < n; ++k) check(Api<kChunk>::alloc()); });
+  mainT.join();
+  auto& g = dispenso::detail::getSmallBufferGlobals<kChunk>();
+  printf("probe chunk %zu consts %zu,%zu,%zu helper %ld allocs %ld bad %ld firstbad %ld reason %s slabs %zu\n", kChunk,
+         A::kIdealNumTLBuffers, A::kBuffersPerMalloc, A::kMallocBytes, j, n, bad, firstbad, reason, g.backingStore.size());
+  fflush(stdout);
+}
+
+template <size_t kChunk>
+static void constsCase() {
+  using A = typename Api<kChunk>::A;
+  printf("consts chunk %zu %zu,%zu,%zu\n", kChunk, A::kIdealNumTLBuffers, A::kBuffersPerMalloc, A::kMallocBytes);
+  fflush(stdout);
+}
+
+#define FOR_CHUNK(chunk, CALL)                     \
+  switch (chunk) {                                 \
+    case 4: CALL(4); break;                        \
+    case 8: CALL(8); break;                        \
+    case 16: CALL(16); break;                      \
+    case 32: CALL(32); break;                      \
+    case 64: CALL(64); break;                      \
+    case 128: CALL(128); break;                    \
+    case 256: CALL(256); break;                    \
+    case 2048: CALL(2048); break;                  \
+    case 8192: CALL(8192); break;                  \
+    default: CALL(4096); break;                    \
+  }
+
 int main() {
   std::string line;
   while (std::getline(std::cin, line)) {
@@ -226,6 +284,17 @@ int main() {
     pid_t pid = fork();
     if (pid == 0) {
       alarm(20);
+      if (line.compare(0, 5, "probe") == 0 || line.compare(0, 6, "consts") == 0) {
+        bool isProbe = line[0] == 'p';
+        std::istringstream hd(line.substr(isProbe ? 5 : 6));
+        long chunk = 0, j = 0, n = 0;
+        hd >> chunk >> j >> n;
+#define CALL_PROBE(N) probeCase<N>(j, n)
+#define CALL_CONSTS(N) constsCase<N>()
+        if (isProbe) { FOR_CHUNK(chunk, CALL_PROBE) } else { FOR_CHUNK(chunk, CALL_CONSTS) }
+        fflush(stdout);
+        _exit(0);
+      }
       std::vector<std::string> parts;
       std::stringstream ss(line);
       std::string part;
@@ -248,6 +317,7 @@ int main() {
       }
       if (chunk == 256) runCase<256>(budget, progs, sched);
       else if (chunk == 8192) runCase<8192>(budget, progs, sched);
+      else if (chunk == 2048) runCase<2048>(budget, progs, sched);
       else runCase<4096>(budget, progs, sched);
       fflush(stdout);
       _exit(0);
